@@ -241,6 +241,9 @@ def run_scripted(ctx, sexe, lines, label, diff=True):
     ml = drv(ctx, text).splitlines()
     for cmd, o, m in zip(lines, il, ml):
         if o != m:
+            if cmd.split()[0] in ctx.diff_ops:
+                ok = False
+                break
             ctx.broken_correspondence(f"ThreadArith model vs src/unix/thread.c ({cmd.split()[0]})",
                                       f"`{cmd}`: impl `{o}` model `{m}`")
             ctx.diff_ops.add(cmd.split()[0])
@@ -376,7 +379,8 @@ def split_real(lines, outs):
     return res
 
 
-def run_real(ctx, rexe, lines, label, env=None, timeout=240):
+def run_real(ctx, rexe, lines, label, env=None, timeout=None):
+    timeout = timeout or ctx.scale(60, 600)
     rc, out, err = ctx.run(rexe, text="\n".join(lines) + "\n", env=env, timeout=timeout)
     outs = out.splitlines()
     ok = True
